@@ -1,0 +1,5 @@
+//go:build !verif
+
+package stream
+
+func verifHook(string) {}
